@@ -242,6 +242,22 @@ def tree_case(ctx, mr, case):
             return b < len(master) and master[b] == h
         stored = levels[li - 1][b * 32:b * 32 + 32]
         return stored == h and authentic(li - 1, (b * 32) // bss[li - 1])
+    # ... and byte by byte: a verified read shows the stored bytes of the blocks whose chain is intact and filler for every other block
+    nb4 = (n4 + bss[3] - 1) // bss[3]
+    view = b''.join((levels[3][b * bss[3]:(b + 1) * bss[3]] if authentic(3, b) else b'\xDD' * len(levels[3][b * bss[3]:(b + 1) * bss[3]])) for b in range(nb4))
+    rd = IVFCLevel4Reader(IVFCHashTree(io.BytesIO(fpdata), ivfc, list(master)), verify=True, deep_verify=True)
+    for _ in range(4):
+        pos = rng.choice([0, rng.randrange(n4 + 1), rng.randrange(n4 + 1) // bss[3] * bss[3]])
+        n = rng.choice([-1, 1, bss[3], bss[3] + 1, rng.randrange(1, n4 + 2)])
+        rd.seek(pos)
+        got = rd.read(n)
+        want = view[pos:] if n < 0 else view[pos:pos + n]
+        if got != want:
+            k = next((i for i, (x, y) in enumerate(zip(got, want)) if x != y), min(len(got), len(want)))
+            ctx.diff('oracle', 'lv4-read-bytes', dict(case, read=[pos, n]), want[k:k + 8].hex(), got[k:k + 8].hex(),
+                     f'verified level-4 read({n}) at {pos}: byte {pos + k} (block {(pos + k) // bss[3]}) is not ' +
+                     ('the stored byte of an authentic block' if authentic(3, (pos + k) // bss[3]) else 'filler although the chain of its block is not intact'))
+            break
     for (li, b), st in zip(reqs, impl):
         if (st == 'T') != authentic(li, b):
             ctx.diff('oracle', 'tree-status', dict(case, level=li + 1, block=b), 'valid' if authentic(li, b) else 'not valid', st,
